@@ -729,6 +729,13 @@ func cmdCheck(args []string) int {
 			fmt.Println("  undecided:", u)
 		}
 	}
+	// keep the scripts of what did not discharge (they are referenced by the replay files); the
+	// scripts of discharged obligations are regenerated by every run and only take disk space
+	for _, it := range items {
+		if it.o.Script != "" && (it.o.Result == "unsat" || it.o.Cover) {
+			os.Remove(it.o.Script)
+		}
+	}
 	if violations > 0 {
 		return 1
 	}
